@@ -785,12 +785,12 @@ def main(ctx):
     q = ctx.quick
     runs = load_corpus()
     ctx.cov["ties"]["corpus_runs"] = len(runs)
-    runs += gen_chan(ctx, 3 if q else 40)
-    runs += gen_abq(ctx, 150 if q else 3000)
-    runs += gen_dbuf(ctx, 150 if q else 3000)
+    runs += gen_chan(ctx, 8 if q else 60)
+    runs += gen_abq(ctx, 400 if q else 4000)
+    runs += gen_dbuf(ctx, 400 if q else 4000)
     runs += gen_malformed(ctx)
     vlib.conc_correspondence(ctx, hcmd, dcmd, runs, judge=judge)
-    fine_runs(ctx, hcmd, gen_abq(ctx, 60 if q else 1000, fine=True) + gen_dbuf(ctx, 60 if q else 1000, fine=True),
+    fine_runs(ctx, hcmd, gen_abq(ctx, 150 if q else 1500, fine=True) + gen_dbuf(ctx, 150 if q else 1500, fine=True),
               "lock_coverage")
     systematic(ctx, hcmd, dcmd, small_confs(ctx), "tieC_systematic")
 
